@@ -436,6 +436,9 @@ func pure(e ast.Expr) bool {
 		return pure(t.X)
 	case *ast.ParenExpr:
 		return pure(t.X)
+	case *ast.SliceExpr:
+		// s[a:b] of a pure s with re-evaluable bounds (the aliasing "clone" append(s[:0], s...) starts like this)
+		return pure(t.X) && (t.Low == nil || pureInt(t.Low)) && (t.High == nil || pureInt(t.High)) && (t.Max == nil || pureInt(t.Max))
 	}
 	return false
 }
@@ -732,6 +735,24 @@ func (in *inst) collect(e ast.Expr, _ bool, acc *[]access) {
 				}
 				if id.Name == "copy" && len(t.Args) == 2 && in.isSlice(t.Args[0]) && pure(t.Args[0]) && pure(t.Args[1]) {
 					*acc = append(*acc, access{kind: "SC", base: t.Args[0], aux: t.Args[1], write: true, node: t})
+				}
+			}
+		}
+		// library functions that rearrange a slice in place: sort.Strings / Ints / Float64s / Slice / SliceStable / Sort / Stable, slices.Sort*, slices.Reverse
+		if se, ok := t.Fun.(*ast.SelectorExpr); ok && len(t.Args) > 0 {
+			if pk, ok := se.X.(*ast.Ident); ok {
+				if pn, ok := in.pkg.TypesInfo.Uses[pk].(*types.PkgName); ok {
+					path, name := pn.Imported().Path(), se.Sel.Name
+					if (path == "sort" && (name == "Strings" || name == "Ints" || name == "Float64s" || name == "Slice" || name == "SliceStable" || name == "Sort" || name == "Stable")) ||
+						(path == "slices" && (strings.HasPrefix(name, "Sort") || name == "Reverse")) {
+						arg := t.Args[0]
+						if conv, ok := arg.(*ast.CallExpr); ok && len(conv.Args) == 1 { // sort.Sort(sort.StringSlice(s)) and the like
+							arg = conv.Args[0]
+						}
+						if in.isSlice(arg) && pure(arg) {
+							*acc = append(*acc, access{kind: "SR", base: arg, node: t}, access{kind: "SR", base: arg, write: true, node: t})
+						}
+					}
 				}
 			}
 		}
